@@ -5,6 +5,7 @@
 #include <pika/execution.hpp>
 #include <pika/thread.hpp>
 
+#include <chrono>
 #include <functional>
 #include <thread>
 #include <vector>
@@ -57,6 +58,16 @@ namespace vh {
                 if (t.joinable()) t.join();
         }
     };
+
+    // a pika task "sleeps" by yielding until virtual time has passed (pika::this_thread::sleep_for is
+    // timed suspension, which this version of pika does not support: at_timer throws)
+    inline void task_sleep_us(int64_t us)
+    {
+        auto until = std::chrono::steady_clock::now() + std::chrono::microseconds(us);
+        do {
+            pika::this_thread::yield();
+        } while (std::chrono::steady_clock::now() < until);
+    }
 
     // main-thread polling pause (virtual time; lets everybody else run)
     inline void main_pause() { std::this_thread::sleep_for(std::chrono::microseconds(2)); }
